@@ -36,6 +36,7 @@ def shards(tier, seed):
         out.append({"name": f"exh{i}", "kind": "exhaustive", "part": i, "parts": n, "length": 7 if tier == "quick" else 8})
     for i in range(6 if tier == "quick" else 16):
         out.append({"name": f"rand{i}", "kind": "random", "n": 160 if tier == "quick" else 3000})
+    out.append({"name": "ce_precedence", "kind": "ce_precedence"})
     return out
 
 
@@ -313,6 +314,8 @@ def run_shard(spec):
                             run.timeline(sc, [(1, e) for e in evs])
                     finally:
                         sc.close()
+        elif spec["kind"] == "ce_precedence":
+            ce_precedence(run, [(6, 1), (2, 8), (4, None), (3, 3), (1, 60), (60, 2), (5, 4), (4, 5)])
         else:
             for _ in range(max(1, spec["n"] // 40)):
                 ni, nd = rng.choice([1, 2, 5, 30, 60]), rng.choice([1, 2, 5, 30, 60])
@@ -340,8 +343,53 @@ def run_shard(spec):
     return res
 
 
+def ce_precedence(run, pairs):
+    """Per-peer timer settings take precedence over the node defaults - also for the wait for a capabilities
+    answer on a connection the node dials: the peer withholds its CEA, the clock moves in steps of 1 s."""
+    from vf.simnet.world import World
+    for node_cea, peer_cea in pairs:
+        timers = {"cea_timeout": peer_cea} if peer_cea else {}
+        w = World(dict(peers=[{"name": "peer1.verif.example", "persistent": True, "reconnect_wait": 10 ** 6,
+                               "timers": timers}],
+                       apps=[{"tag": "a4", "id": 4, "peers": ["peer1.verif.example"]}],
+                       node={"cea_timeout": node_cea, "cer_timeout": 10 ** 6, "idle_timeout": 10 ** 6}))
+        h = w.h
+        want = peer_cea or node_cea
+        try:
+            w.start()
+            h.settle()
+            if not h.outbound_peers:
+                continue
+            sp = h.outbound_peers[0]
+            t0 = h.now
+            run.evals += 1
+            run.hashes.add(h64("ce-precedence", node_cea, peer_cea))
+            run.cov["ce_precedence_cases"] = run.cov.get("ce_precedence_cases", 0) + 1
+            for _ in range(max(node_cea, want) + 3):
+                h.advance(1)
+                h.settle()
+                elapsed = h.now - t0
+                closed = sp.node_sock.closed
+                ctx = {"node_cea_timeout": node_cea, "peer_cea_timeout": peer_cea, "elapsed": elapsed}
+                rp = {"ce_precedence": [node_cea, peer_cea]}
+                if closed and elapsed < want:
+                    run.witness("precedence.cea_timeout.closed_early", ctx, rp)
+                    break
+                if not closed and elapsed > want + 1:
+                    run.witness("precedence.cea_timeout.not_closed", ctx, rp)
+                    break
+                if closed:
+                    break
+        finally:
+            w.teardown()
+
+
 def replay(obj):
     run = Run()
+    if "ce_precedence" in obj:
+        ce_precedence(run, [tuple(obj["ce_precedence"])])
+        return {"evaluations": run.evals, "hashes": sorted(run.hashes), "witnesses": run.wit, "samples": [],
+                "coverage": run.cov}
     p = obj["params"]
     sc = Scenario(run, p["node_idle"], p["node_dwa"], p["peer_idle"], p["peer_dwa"], p["direction"],
                   busy=p.get("busy", False))
@@ -363,4 +411,6 @@ def finish(tier, seed, cov, evaluations):
         out.append("received DWR not exercised in both ready sub-states")
     if cov.get("directions", {}).get("out", 0) == 0:
         out.append("no outbound connection exercised")
+    if cov.get("ce_precedence_cases", 0) == 0:
+        out.append("precedence of the per-peer capabilities-exchange timeout not exercised")
     return out
